@@ -1018,6 +1018,9 @@ void SimplifyConstTimes::constSimplify(SymRef s, vec<PTRef> const & terms, SymRe
         }
         if (not l.isOne(tr)) {
             if (l.isPlus(tr)) {
+                // A second sum makes the product non-linear: keep the first one as a factor of its own, so that the
+                // product is not mistaken for a constant times a sum.
+                if (plus != PTRef_Undef) { terms_new.push(plus); }
                 plus = tr;
             } else if (l.isConstant(tr)) {
                 con = tr;
